@@ -246,13 +246,20 @@ async fn run_peers(ctx: &Arc<RunCtx>) {
 
     let events = Events::new();
     let mut peers = Peers::new(&events);
-    let watcher = peers.info_watcher();
+    // Whether anybody holds an info watcher while the events happen: always (the running node's
+    // SwarmManager does), never (each check subscribes afresh and drops the receiver again), or
+    // on and off. Published statistics must not depend on somebody listening.
+    let watcher_mode = ctx.choose("cfg.watcher_mode", 3);
+    let mut held = if watcher_mode == 1 { None } else { Some(peers.info_watcher()) };
     let mut hx = Harness {
         ctx,
         ids: ids.clone(),
         model: vec![ModelPeer::default(); n_peers],
     };
-    hx.check_state(&peers, &watcher, "construction");
+    {
+        let w = held.clone().unwrap_or_else(|| peers.info_watcher());
+        hx.check_state(&peers, &w, "construction");
+    }
 
     for _ in 0..n_ops {
         if !ctx.findings.lock().unwrap().is_empty() {
@@ -432,7 +439,16 @@ async fn run_peers(ctx: &Arc<RunCtx>) {
             ctx.end_span();
             break;
         }
-        hx.check_state(&peers, &watcher, &label);
+        {
+            let w = held.clone().unwrap_or_else(|| {
+                ctx.probe("checked_without_a_standing_watcher");
+                peers.info_watcher()
+            });
+            hx.check_state(&peers, &w, &label);
+        }
+        if watcher_mode == 2 && ctx.coin("watcher.toggle", 150) {
+            held = if held.is_some() { None } else { Some(peers.info_watcher()) };
+        }
         ctx.end_span();
     }
 }
